@@ -20,7 +20,7 @@ SPECS = {
         "rule": "one evaluation = one seeded simulated run (plan drawn from seed: MDP tables, policy tables, gamma/lambda/time-limit, "
         "reset + 1..4 real `iteration`s, optional node-perturbation fault) executed through the real on-policy pipeline and checked "
         "row by row by RefCollectorOn; non-trivial = at least one scheduled event (episode end of any kind, clipped/out-of-bounds action, "
-        "single-action mask) or injected fault fired; distinct = distinct (shape class, set of fired event/fault kinds with bucketed counts)",
+        "single-action mask) or injected fault fired; distinct = distinct (shape class, set of fired event/fault kinds with bucketed counts); stacks with RescaleAction and one-sided Box action spaces; critic undefined (infinite) on terminal states nobody acts on",
         "assumptions": [
             "SimMDP tables and unique observation encodings are trusted; float32 results compared with float64 references at 2e-5 relative",
             "seeded search samples: a clean batch is evidence, not proof (bounds S<=8, T<=16, nodes<=4, <=4 iterations)",
@@ -62,7 +62,7 @@ SPECS = {
         "drawn behaviour policy; after reset and after every iteration the whole per-node replay content is read and every newly inserted "
         "row is checked by RefCollectorOff as a chain (observation acted on, executed = clipped action, reward, pre-reset successor "
         "observation, done, timeout, policy states, fresh start after done, exact counts); non-trivial = an episode end, ring wrap, partial "
-        "fill or out-of-bounds action fired; distinct = distinct (shape class, fired event/fault kinds with bucketed counts)",
+        "fill or out-of-bounds action fired; distinct = distinct (shape class, fired event/fault kinds with bucketed counts); a learner that implements only the documented hooks and inherits the base-class reset/iteration; one-sided Box action spaces",
         "assumptions": ["SimMDP tables / unique observation ids trusted", "rows overwritten before the first read are skipped and counted (probe rows_overwritten_unseen)"],
         "real": ["lerax off_policy.reset/collect_learning_starts/iteration/step, ReplayBuffer.add, DQN/SAC training step (runs, not judged here)", "TimeLimit, JAX/XLA CPU"],
         "stub": STUB_MDP[:3] + ["SAC critics replaced by table critics after reset (documented SACState fields)"],
